@@ -1,3 +1,8 @@
 -- Root of the `PymotoVerif` library: models (Core, LA), helper lemmas, property theorems, driver handlers.
 import PymotoVerif.Drv.All
+import PymotoVerif.Props.C02
+import PymotoVerif.Props.C03
 import PymotoVerif.Props.C13
+import PymotoVerif.Props.C16
+import PymotoVerif.Props.C18
+import PymotoVerif.Props.C20
